@@ -936,7 +936,7 @@ func flagLimitsLoop(fn *ssa.Function, si ir.SelectInfo, arm ir.SelectArm) bool {
 			continue
 		}
 		for s := 0; s < 2; s++ {
-			start := ir.Pt{B: ii.If.Block().Succs[s], I: 0}
+			start := ir.EdgePt(ii.If.Block(), s)
 			back := ir.Reach([]ir.Pt{start}, ir.Opts{Stop: stopAtSel})
 			if !back.Stopped[si.Sel] {
 				continue // this edge does not loop
@@ -950,7 +950,7 @@ func flagLimitsLoop(fn *ssa.Function, si ir.SelectInfo, arm ir.SelectArm) bool {
 				continue
 			}
 			back = direct
-			other := ir.Reach([]ir.Pt{{B: ii.If.Block().Succs[1-s], I: 0}}, ir.Opts{Stop: stopAtSel})
+			other := ir.Reach([]ir.Pt{ir.EdgePt(ii.If.Block(), 1-s)}, ir.Opts{Stop: stopAtSel})
 			if other.Stopped[si.Sel] {
 				// both edges loop: this If does not decide; a later If must
 				continue
@@ -1507,7 +1507,7 @@ func warcCloseCollectionForm(r *core.Reporter, stop *ssa.Function, wgWait ssa.In
 		// the close loop is entered only after the wait loop has run to its end
 		early := res.Reached[closeLoop.If] || res.Stopped[closeLoop.If]
 		if !early {
-			fromBody := ir.Reach([]ir.Pt{{B: waitLoop.If.Block().Succs[waitLoop.EdgeWhen(true)], I: 0}}, ir.Opts{Stop: func(in ssa.Instruction) bool { return in == ssa.Instruction(waitLoop.If) }})
+			fromBody := ir.Reach([]ir.Pt{ir.EdgePt(waitLoop.If.Block(), waitLoop.EdgeWhen(true))}, ir.Opts{Stop: func(in ssa.Instruction) bool { return in == ssa.Instruction(waitLoop.If) }})
 			if fromBody.Reached[closeLoop.If] || fromBody.Stopped[closeLoop.If] {
 				early = true
 			}
